@@ -41,6 +41,7 @@ type world struct {
 	dl    mangos.Dialer
 	pipes []mangos.Pipe
 	close bool // hook closes the next pipe during Attaching
+	n     int
 }
 
 // provoke runs one operation that fails in a documented way and checks the error.
@@ -88,9 +89,11 @@ var failures = []failure{
 		expect("Listen(address in use)", call("Listen-inuse", 0, func() error { return w.x.S.Listen("vt://c12") }), mangos.ErrAddrInUse)
 	}},
 	{"listen-fails-then-retry-same-listener", nil, func(w *world) {
-		ep := vt.Get("c12-retry")
+		w.n++
+		addr := fmt.Sprintf("c12-retry%d", w.n)
+		ep := vt.Get(addr)
 		ep.FailListen(mangos.ErrAddrInUse)
-		l, err := w.x.S.NewListener("vt://c12-retry", nil)
+		l, err := w.x.S.NewListener("vt://"+addr, nil)
 		if err != nil {
 			kit.Failf("newlistener", "NewListener: %s", kit.ErrName(err))
 		}
@@ -238,7 +241,8 @@ var failures = []failure{
 		if len(w.pipes) == 0 {
 			return
 		}
-		p := w.pipes[0]
+		p := w.pipes[len(w.pipes)-1]
+		w.pipes = w.pipes[:len(w.pipes)-1]
 		_ = call("Pipe.Close", 0, p.Close)
 		_ = call("Pipe.Close2", 0, p.Close)
 		kit.Count("error-provoked")
@@ -265,8 +269,15 @@ func (w *world) followups() {
 		})
 	}
 	// the listener still accepts: a new peer attaches (patterns with a single peer first lose the old one)
-	if w.x.P != nil && w.x.P.Alive() && (w.k.Name == "pair" || w.k.Name == "xpair" || w.k.Name == "pair1" || w.k.Name == "xpair1") {
-		w.x.P.DropNow()
+	if w.k.Name == "pair" || w.k.Name == "xpair" || w.k.Name == "pair1" || w.k.Name == "xpair1" {
+		for _, name := range []string{"c12", "c12-dial", "c12-hs", "c12-async", "c12-retry1", "c12-retry2", "c12-retry3"} {
+			ep := vt.Get(name)
+			for i := 0; i < ep.NumPipes(); i++ {
+				if ep.PipeAt(i).Alive() {
+					ep.PipeAt(i).DropNow()
+				}
+			}
+		}
 		kit.Quiesce()
 	}
 	before := len(w.pipes)
